@@ -225,7 +225,7 @@ func c19(r *Report) {
 				inner = cc
 			}
 		}
-		okData := inner != nil && a[5] == ssa.Value(rd.Params[1]) && a[6] == resultOf(inner, 0)
+		okData := inner != nil && isParamVal(a[5], rd.Params[1]) && a[6] == resultOf(inner, 0)
 		r.Decide("flow", "(*M/marbl.bodyLogger).Read: the frame carries the caller's buffer and the count just read", okData, "sendData(..., b, n)", "the logged bytes are not the bytes this Read returned", sds[0].Pos())
 		// index: atomic.AddUint32(&bl.index, 1) - 1
 		okIdx := false
